@@ -185,7 +185,8 @@ def compute(repo, tier):
             if os.path.abspath(repo) != "/repo":
                 if d.startswith(rk):
                     shutil.rmtree(p, ignore_errors=True)
-            elif not d.startswith(rk) and time.time() - os.path.getmtime(p) > 1800:
+            elif not d.startswith(rk + "-" + extract.engine_key()) and time.time() - os.path.getmtime(p) > 1800:
+                # facts of older trees and of older versions of the extractor are not kept
                 shutil.rmtree(p, ignore_errors=True)
     return {"tier": tier, "repo": repo, "configs": per_cfg, "static": static_res, "wall": round(time.time() - t0, 1), "at": time.time()}
 
